@@ -211,6 +211,7 @@ class C14(runner.Prop):
         self.inputs_untouched(case, cfg, ctx)
         self.leaves_released(case, cfg, ctx)
         self.cycles(case, cfg, ctx)
+        self.failed_operations(case, cfg, ctx)
 
     # ------------------------------------------------------------------ (1) snapshot invariance
     def history(self, case, cfg, ctx):
@@ -267,6 +268,49 @@ class C14(runner.Prop):
         finally:
             if unregistered:
                 U.register_again(vcls, vns)
+
+    # ------------------------------------------------------------------ (1b) an operation that *fails* leaves its operand alone
+    def failed_operations(self, case, cfg, ctx):
+        """the generated tree under a dict whose keys tick (hash / eq / lt / repr): every treespec operation is
+        made to fail at its 1st, 2nd, ... user callback; afterwards the operand treespec is observed again"""
+        kw = gen.kw(cfg)
+        inner = gen.build(case['t'])
+        tree = {U.FK(2): inner, U.FK(0): [1, None], U.FK(1): (2,)}
+        U.TICK.reset()
+        with gen.ModeCtx(cfg):
+            spec = optree.tree_structure(tree, **kw)
+            twin = optree.tree_structure({U.FK(1): (2,), U.FK(2): gen.build(case['t']), U.FK(0): [1, None]}, **kw)
+        obs0 = full_observe(spec)
+        toks = list(range(spec.num_leaves))
+        ops = {'repr': lambda: repr(spec), 'str': lambda: str(spec), 'hash': lambda: hash(spec), 'eq': lambda: spec == twin,
+               'is_prefix': lambda: spec.is_prefix(twin), 'le': lambda: twin <= spec,
+               'broadcast': lambda: spec.broadcast_to_common_suffix(twin), 'unflatten': lambda: spec.unflatten(toks),
+               'flatten_up_to': lambda: spec.flatten_up_to({U.FK(0): [1, None], U.FK(1): (2,), U.FK(2): inner}),
+               'compose': lambda: spec.compose(twin), 'paths': lambda: spec.paths(), 'entries': lambda: spec.entries(),
+               'pickle': lambda: pickle.loads(pickle.dumps(spec)), 'deepcopy': lambda: copy.deepcopy(spec)}
+        failed = 0
+        for name, op in ops.items():
+            for k in (1, 2, 3, 5, 8):
+                U.TICK.arm(k)
+                try:
+                    op()
+                    raised = False
+                except U.Boom:
+                    raised = True
+                except Exception:  # noqa: BLE001  (what the failure turns into is C15's business)
+                    raised = True
+                finally:
+                    U.TICK.reset()
+                if not raised:
+                    break
+                failed += 1
+                d = obs_diff(full_observe(spec), obs0)
+                if d:
+                    ctx.fail(f'failed_op/{name}', f'k={k}: {d}')
+                    break
+        if failed:
+            ctx.label('failed_operations')
+        ctx.extra_cov['failed_operations'] = ctx.extra_cov.get('failed_operations', 0) + failed
 
     # ------------------------------------------------------------------ (2) inputs untouched by every operation
     def inputs_untouched(self, case, cfg, ctx):
